@@ -69,6 +69,7 @@ const (
 	c36FParquetNull   = "C36-parquet-null-decimal"
 	c36FFileGenerated = "C36-file-generated-column"
 	c36FParquetDotted = "C36-parquet-dotted-column"
+	c36FParquetUint64 = "C36-parquet-uint64"
 )
 
 func c36IsOpen(id string) bool {
@@ -99,6 +100,7 @@ func c36NewGate() *c36Gate {
 		noParquetNullDec: c36IsOpen(c36FParquetNull),
 		noFileGenerated:  c36IsOpen(c36FFileGenerated),
 		noParquetDotted:  c36IsOpen(c36FParquetDotted),
+		noParquetUint64:  c36IsOpen(c36FParquetUint64),
 	}
 }
 
@@ -469,7 +471,7 @@ func TestVerif_C36(t *testing.T) {
 	}
 	rec.Set("open_findings_excluded", open)
 	keep := os.Getenv("C36_KEEP") != ""
-	vh.Check(t, "sqldump", 16, 30, func(rt *rapid.T) {
+	vh.Check(t, "sqldump", 16, 20, func(rt *rapid.T) {
 		before := gate.excluded
 		db := c36GenDB(rt, gate)
 		v := c36DrawVariant(rt)
@@ -614,7 +616,7 @@ func TestVerif_C36_formats(t *testing.T) {
 	e := c36Setup(t)
 	defer os.RemoveAll(e.root)
 	keep := os.Getenv("C36_KEEP") != ""
-	vh.Check(t, "formats", 9, 20, func(rt *rapid.T) {
+	vh.Check(t, "formats", 9, 12, func(rt *rapid.T) {
 		format := []string{"csv", "json", "parquet"}[rapid.IntRange(0, 2).Draw(rt, "format")]
 		gate := c36NewGate()
 		gate.format = format
